@@ -123,8 +123,15 @@ def run(pid, tier, seed, work, a, t0):
         return 2
     results = []
     builts = {}
-    for un, ps in plan:
-        b = pipeline.build_unit(un, os.path.join(work, un))
+    build_errors = []
+    for un, ps in list(plan):
+        try:
+            b = pipeline.build_unit(un, os.path.join(work, un))
+        except (lower.Abort, cast.AstError, pipeline.PipelineError) as e:
+            # one unit that cannot be built (an edit of /repo the lowering has no rule for) does not stop the other units' proofs
+            build_errors.append('%s: %s: %s' % (un, type(e).__name__, str(e)[:1500]))
+            plan.remove((un, ps))
+            continue
         builts[un] = b
     # run all proofs of all units in one pool
     from concurrent.futures import ThreadPoolExecutor
@@ -140,7 +147,7 @@ def run(pid, tier, seed, work, a, t0):
             r['proofspec'] = p
             results.append(r)
 
-    errors = []
+    errors = list(build_errors)
     n_obl = n_dis = 0
     bounded = []
     failures = []          # (result, obligation)
@@ -266,7 +273,7 @@ def run(pid, tier, seed, work, a, t0):
 
     wall = time.time() - t0
     viol_lines = []
-    if native_fail and not errors:
+    if native_fail:
         os.makedirs(os.path.join(ROOT, 'replays', pid), exist_ok=True)
         for un, sp, res in native_fail:
             path = os.path.join(ROOT, 'replays', pid, 'native_%s.json' % sp['name'])
@@ -278,7 +285,7 @@ def run(pid, tier, seed, work, a, t0):
                        'all_failing_inputs': [f['argv'] for f in res['failed']][:50]}, open(path, 'w'), indent=1)
             print('  native sweep %s: %d of %d inputs fail on the real code, first: %s' % (sp['name'], len(res['failed']), res['ran'], f0['output'].strip()[:300]))
             viol_lines.append('VIOLATION property=%s replay=%s' % (pid, path))
-    if failures and not errors:
+    if failures:
         # group by proof
         groups = {}
         for r, c, o in failures:
@@ -335,7 +342,9 @@ def run(pid, tier, seed, work, a, t0):
     if errors:
         for e in errors:
             print('ERROR: ' + e)
-        return 2
+        if not viol_lines:
+            return 2
+        # a failed obligation of a proof that ran is a violation whatever went wrong in another proof
     if viol_lines:
         for l in viol_lines:
             print(l)
